@@ -74,6 +74,19 @@ CHECKS["C10"] = dict(
     ref="4/C10",
 )
 
+CHECKS["C09"] = dict(
+    technique="history-vs-fresh oracle on recorded operation histories over shared Environment/Template/loader objects, with fault injection at the k-th data access / loader call, a harness-controlled clock, and the deterministic coroutine scheduler for concurrent renders",
+    text="Exploration: ~1.7e4 (quick) steps of ~4.7e3 histories (render, render_async, analyze, from_string, get_template, liquid2.render/parse, configure-environment, faulted renders, failing loads) on two long-lived environments are each compared with the same call on freshly built objects under the same clock reading; the clock advances between steps; every fault position of the fault-free run is swept; ~2e4 interleavings of concurrent renders of one shared Template are compared with solo results.",
+    note="Trusted: the clock shim (the only two modules reading the wall clock are patched), the fresh-twin construction (configuration actions are inputs). Caching-loader content staleness is C14's subject.",
+    ref="4/C09, 2.4, 2.5",
+)
+CHECKS["C16"] = dict(
+    technique="three-policy differential with counting Undefined subclasses that log creation and every touch, plus a lookup hook (RenderContext.get/get_async) giving an independent exists/missing verdict",
+    text="Exploration: ~3.3e4 (quick) / 1.1e6 (thorough) policy triples (Undefined, StrictUndefined, FalsyStrictUndefined) over corpus cases and 243 statement forms x deletion subsets of the referenced variables/properties (exhaustive up to 4/6 candidates): default never raises UndefinedError; a successful strict/falsy-strict render equals the default output; strict raises only after an undefined object was created and touched; complete data never raises.",
+    note="Trusted: the plain-data resolver that decides whether a looked-up path exists (2% undecided, skipped). A policy that silently consumes an undefined without touching it and prints what the default prints is invisible.",
+    ref="4/C16",
+)
+
 NOT_YET = {}
 
 def main():
